@@ -69,6 +69,14 @@ def fromString (mem : List Nat) (len : Nat) : Res Nat :=
             .ok (sub32 ((b0 <<< 6) + b1) off)
         else .ok (sub32 b0 off)
 
+/-! ## the `String` overloads: `fromString(const String&)`, `isValid(const String&)`
+
+  `fromString(str, str.length())` / `isValid(str, str.length())`: the argument converts through
+  `String::operator const char*`, whose result is the C-string view of the value (area Str / C06, `cview`):
+  the `len` chars followed by the terminator, i.e. a block of `len + 1` bytes of which the pointer form is
+  handed the range `[0, len)`. -/
+def cview (s : List Nat) : List Nat := s ++ [0]
+
 /-! ## validator: `Unicode::isValid(const char* ch, usize len)` -/
 
 /-- loop state: position `p` of `ch` relative to the start, remaining `len`; `end_` is the
@@ -99,6 +107,12 @@ termination_by end_ - p
 decreasing_by all_goals omega
 
 def isValid (mem : List Nat) (len : Nat) : Res Bool := isValidLoop mem len 0 len
+
+def fromStringS (s : List Nat) : Res Nat := fromString (cview s) s.length
+def isValidS (s : List Nat) : Res Bool := isValid (cview s) s.length
+
+/-- `toString(const uint32* data, usize size)`: `String result(size + 200); append(data, size, result);` -/
+def toStringArr (cps : List Nat) : List Nat := (appendAll cps).2
 
 /-! ## `String::fromHex(const byte* data, usize size)` -/
 
@@ -144,13 +158,19 @@ def b64Loop : List Nat → Nat → Nat → List Nat → Res (Option (Nat × List
       | .val c => (b64Switch i c j out).bind fun r => b64Loop rest (i + 1) r.1 r.2
 
 /-- `result.reserve(E)` gives a buffer of at least `b64Reserve inlen` bytes (+ terminator); the model
-    checks every `out[j]` access against exactly that many.  `result.resize(j)` keeps the first `j` bytes. -/
+    checks every `out[j]` access against exactly that many.  `result.resize(j)` keeps the first `j` stored
+    bytes only when it stays in place (`detach(j, j)` fast path: `ref == 1 && j <= capacity`, which stores
+    nothing but the terminator at index `j`; the reallocating path would copy `min(len, j) = 0` chars because
+    the raw stores did not touch `len`): `j` beyond the reserved bytes is a fault of the model.
+    BUFFER PROTOCOL ASSUMED (String's side, area Str / C06, `Nstd.Str.detach`): `reserve(n)` on the fresh String
+    yields an unshared block of capacity >= n; `(char*)result` is `detach(len, len)` on that block (in place);
+    stores through that pointer below the capacity change exactly the addressed chars. -/
 def fromBase64 (inp : List Nat) : Res (List Nat) :=
   if b64LenRejects inp.length then .ok []
   else (b64Loop inp 0 0 (List.replicate (b64Reserve inp.length) 0)).bind fun r =>
     match r with
     | none => .ok []
-    | some (j, out) => .ok (out.take j)
+    | some (j, out) => if j ≤ out.length then .ok (out.take j) else .oob
 
 /-! ## libc as assumed (C11 7.21.6.5 vsnprintf; 7.22.1.4 strtol family; glibc atoi/atoll) -/
 
